@@ -65,10 +65,32 @@ class CountingSource:
 
 
 def make_bucket_ds(src, p, drop):
-    return src.batch_dynamic_time_series_bucket(
-        batch_size=p['batch_size'], len_key='len', max_padding_rate=p['rate'], max_total_size=p['mts'],
-        expiration=p['expiration'], max_buffered_examples=p['mbe'], drop_incomplete=drop,
-        sort_key='len' if p['sort'] else None, reverse_sort=p.get('reverse', False))
+    ds = src
+    api = p.get('api')
+    if api == 'positional':
+        # the documented parameter order, passed by position
+        ds = ds.batch_dynamic_time_series_bucket(
+            p['batch_size'], 'len', p['rate'], p['mts'], p['expiration'], p['mbe'], drop,
+            'len' if p['sort'] else None, p.get('reverse', False))
+    elif api == 'custom_bucket':
+        # a user bucket class that refines maybe_append (one parity of ids per batch): its refusals count
+        from lazy_dataset import core
+
+        class ParityBucket(core.DynamicTimeSeriesBucket):
+            def maybe_append(self, example):
+                if self.data and self.data[0]['id'] % 2 != example['id'] % 2:
+                    return False
+                return super().maybe_append(example)
+        ds = ds.batch_dynamic_bucket(
+            ParityBucket, expiration=p['expiration'], max_buffered_examples=p['mbe'], drop_incomplete=drop,
+            sort_key='len' if p['sort'] else None, reverse_sort=p.get('reverse', False), batch_size=p['batch_size'],
+            len_key='len', max_padding_rate=p['rate'], max_total_size=p['mts'])
+    else:
+        ds = ds.batch_dynamic_time_series_bucket(
+            batch_size=p['batch_size'], len_key='len', max_padding_rate=p['rate'], max_total_size=p['mts'],
+            expiration=p['expiration'], max_buffered_examples=p['mbe'], drop_incomplete=drop,
+            sort_key='len' if p['sort'] else None, reverse_sort=p.get('reverse', False))
+    return ds
 
 
 def run_two_iterators(seq, p, word):
@@ -119,10 +141,7 @@ def run_bucket(seq, p, drop, via_copy=False):
             out.append([(ex['id'], ex['len']) for ex in batch])
             at.append(pulls[0])
         return out, at, pulls[0]
-    ds = ds.batch_dynamic_time_series_bucket(
-        batch_size=p['batch_size'], len_key='len', max_padding_rate=p['rate'], max_total_size=p['mts'],
-        expiration=p['expiration'], max_buffered_examples=p['mbe'], drop_incomplete=drop,
-        sort_key='len' if p['sort'] else None, reverse_sort=p.get('reverse', False))
+    ds = make_bucket_ds(ds, p, drop)
     out, at = [], []
     for batch in ds:
         out.append([(ex['id'], ex['len']) for ex in batch])
@@ -155,6 +174,9 @@ def check(seq, p):
         lens = [n for _, n in b]
         if min(lens) < max(lens) * (1 - p['rate']) * (1 - 1e-9):
             raise Violation('padding-bound', f'{desc}\nbatch {b}: min {min(lens)} < max {max(lens)} * (1 - rate)')
+        if p.get('api') == 'custom_bucket' and len({i % 2 for i, _ in b}) > 1:
+            raise Violation('custom-bucket-rule-ignored', f'{desc}\nbatch {b} mixes even and odd ids although the '
+                                                          f'bucket class refuses that in maybe_append')
         if p['mts'] is not None and len(b) > 1 and len(b) * max(lens) > p['mts']:
             raise Violation('max-total-size', f'{desc}\nbatch {b}: {len(b)} * {max(lens)} > {p["mts"]}')
         created = min(i for i, _ in b)
@@ -247,6 +269,8 @@ def st_case(draw):
         p['unsized'] = True
     if draw(st.integers(0, 2)) == 0:
         p['flag_kind'] = draw(st.integers(1, 3))
+    if draw(st.integers(0, 2)) == 0:
+        p['api'] = draw(st.sampled_from(['positional', 'custom_bucket']))
     case = {'lengths': seq, 'params': p}
     if draw(st.integers(0, 3)) == 0:
         case['word'] = draw(st.lists(st.integers(0, 1), min_size=0, max_size=20))
